@@ -20,6 +20,10 @@
 -/
 import IgrisModel.C09.Lemmas
 import IgrisModel.C09.More
+import IgrisModel.C09.Order
+import IgrisModel.C09.Bound
+import IgrisModel.C09.Bounded
+import IgrisModel.C09.Layout
 namespace Igris.C09
 open Igris.Proto
 
@@ -181,9 +185,10 @@ theorem bounded_load (rem : List Byte) (size : Nat) :
     loadS rem size = some (rem.take size ++ List.replicate (size - rem.length) 0#8, rem.drop size) :=
   loadS_eq rem size
 
-/-- contrast (NOT part of the property, which speaks of the bounded storage
-reader only): `binary_buffer_reader` of the archive stack stores `_end` but
-never compares with it; on a truncated input it reads past the end -/
+/-- historical (before `fix: binary_buffer_reader never reads beyond _end`;
+`decodeA` = the reader as it was, now the strict reference reader):
+`binary_buffer_reader` stored `_end` but never compared with it; on a truncated
+input it read past the end.  The code now is `decodeB`, section 13. -/
 theorem archive_reader_unbounded_witness : decodeA (.sc .u32) [1, 2] = none := by decide
 
 /-! ## 4. what the repairs changed (historical witnesses on the model of the old code) -/
@@ -257,12 +262,13 @@ theorem archive_reader_local_seq (ts : List Ty) (input : List Byte) (vs : List V
     ∃ p, input = p ++ r ∧ ∀ y, decodeFieldsA ts (p ++ y) = some (vs, y) :=
   local_decodeFieldsA ts input vs r h
 
-/- TRUNCATED INPUT, archive reader.  The full statement would be "on a truncated
-   encoding the reader never reads beyond the supplied bytes":
-       ∀ ty v k, ∃ v' c, c ≤ k ∧ decodeA ty ((encodeA ty v).take k) = some (v', …)
-   It is FALSE for the code: `binary_buffer_reader` stores `_end` and never compares
-   with it (finding C09-archive-reader-unbounded, probes `ta …`).  What holds is the
-   exact opposite, for EVERY proper prefix of EVERY encoding: -/
+/- TRUNCATED INPUT, archive reader AS IT WAS (`decodeA`).  The full statement "on a
+   truncated encoding the reader never reads beyond the supplied bytes":
+       ∀ ty v k, ∃ v' c, c ≤ k ∧ decode ty ((encodeA ty v).take k) = some (v', …)
+   was FALSE for the code: `binary_buffer_reader` stored `_end` and never compared
+   with it (C09-archive-reader-unbounded, now repaired by b8eaf2a; the full statement is
+   `bounded_archive_reader_safe` on `decodeB`, section 13).  For the old reader the
+   exact opposite held, for EVERY proper prefix of EVERY encoding: -/
 
 /-- `_partial` (characterisation of the finding): on every proper prefix of the
 encoding of a well-formed value the archive reader reads past the end of the
@@ -384,6 +390,331 @@ theorem storage_loads (rem : List Byte) (n : Nat) :
     loadsS rem n = some (rem.take n ++ List.replicate (n - rem.length) 0#8, rem.drop n) :=
   loadS_eq rem n
 
+/-! ## 11. extension 2: the key order of `std::map<K, …>` for EVERY key type
+
+`keyLt` is `std::less<K>` on the whole universe (IEEE `<` for float/double,
+lexicographic for vector / pair / tuple / map / `std::tie` of a user type), so
+`WF (.map k t)` — entries in strict key order — describes the maps of every key
+type, and `roundtrip_prefix_A` covers them all (before, `keyLt` was `false`
+outside integers/strings/pairs and `WF` admitted at most one entry there). -/
+
+/-- `operator<` is a STRICT WEAK ORDER on the keys of every type, NaN excluded:
+asymmetric, transitive, and incomparability (the key equivalence of `std::map`)
+is transitive.  This is the requirement `std::map` puts on its comparison. -/
+theorem key_order_strict_weak (kt : Ty) :
+    (∀ a b, keyClean kt a = true → keyClean kt b = true → keyLt kt a b = true → keyLt kt b a = false) ∧
+    (∀ a b c, keyClean kt a = true → keyClean kt b = true → keyClean kt c = true →
+      keyLt kt a b = true → keyLt kt b c = true → keyLt kt a c = true) ∧
+    (∀ a b c, keyClean kt a = true → keyClean kt b = true → keyClean kt c = true →
+      keyLt kt a b = false → keyLt kt b a = false → keyLt kt b c = false → keyLt kt c b = false →
+      keyLt kt a c = false ∧ keyLt kt c a = false) :=
+  ⟨(swo_key kt).asym, (swo_key kt).trans, (swo_key kt).equiv_trans⟩
+
+/-- `_witness` for the exclusion: with a NaN the incomparability is not transitive
+(1.0f ~ NaN ~ 2.0f but 1.0f < 2.0f), also inside a `vector<float>` key -/
+theorem key_order_nan_witness :
+    keyLt (.sc .f32) (.sc 0x3f800000) (.sc 0x7fc00000) = false ∧ keyLt (.sc .f32) (.sc 0x7fc00000) (.sc 0x3f800000) = false ∧
+    keyLt (.sc .f32) (.sc 0x7fc00000) (.sc 0x40000000) = false ∧ keyLt (.sc .f32) (.sc 0x40000000) (.sc 0x7fc00000) = false ∧
+    keyLt (.sc .f32) (.sc 0x3f800000) (.sc 0x40000000) = true ∧
+    keyClean (.sc .f32) (.sc 0x7fc00000) = false ∧
+    keyClean (.vec (.sc .f64)) (.list [.sc 0, .sc 0x7ff8000000000001]) = false := by decide
+
+/-- IEEE order on the bit patterns: -inf < -1.0 < -0.0 = +0.0 < denormal < 1.0 < +inf;
+`-0.0` and `+0.0` are EQUIVALENT keys (a map holds at most one of them) -/
+theorem key_order_float_examples :
+    keyLt (.sc .f32) (.sc 0xff800000) (.sc 0xbf800000) = true ∧ keyLt (.sc .f32) (.sc 0xbf800000) (.sc 0x80000000) = true ∧
+    keyLt (.sc .f32) (.sc 0x80000000) (.sc 0) = false ∧ keyLt (.sc .f32) (.sc 0) (.sc 0x80000000) = false ∧
+    keyLt (.sc .f32) (.sc 0) (.sc 1) = true ∧ keyLt (.sc .f32) (.sc 1) (.sc 0x3f800000) = true ∧
+    keyLt (.sc .f32) (.sc 0x3f800000) (.sc 0x7f800000) = true ∧
+    keyLt (.sc .f64) (.sc 0xbff0000000000000) (.sc 0x8000000000000000) = true ∧
+    keyLt (.sc .f64) (.sc 0x8000000000000000) (.sc 0) = false ∧ keyLt (.sc .f64) (.sc 0) (.sc 0x8000000000000000) = false := by
+  decide
+
+/-- a wire image that carries both `+0.0f` and `-0.0f` as keys decodes to ONE entry
+(the first one inserted wins), like `std::map<float, uint8_t>` -/
+theorem map_float_zero_keys_collapse :
+    decodeA (.map (.sc .f32) (.sc .u8)) [2, 0,  0, 0, 0, 0,  1,  0, 0, 0, 0x80,  2] =
+      some (.list [.list [.sc 0, .sc 1]], []) := rfl
+
+/-- the audit's probe, now with the right answer: a 2-entry `map<vector<u8>, u8>`,
+`map<tuple<u8,u8>, u8>` and `map<float, u8>` (keys -1.0f, 2.0f) come back complete -/
+theorem map_compound_keys_roundtrip_examples :
+    decodeA (.map (.vec (.sc .u8)) (.sc .u8))
+        (encodeA (.map (.vec (.sc .u8)) (.sc .u8)) (.list [.list [.list [.sc 1], .sc 10], .list [.list [.sc 1, .sc 0], .sc 20]])) =
+      some (.list [.list [.list [.sc 1], .sc 10], .list [.list [.sc 1, .sc 0], .sc 20]], []) ∧
+    decodeA (.map (.tuple [.sc .u8, .sc .u8]) (.sc .u8))
+        (encodeA (.map (.tuple [.sc .u8, .sc .u8]) (.sc .u8)) (.list [.list [.list [.sc 1, .sc 9], .sc 10], .list [.list [.sc 2, .sc 0], .sc 20]])) =
+      some (.list [.list [.list [.sc 1, .sc 9], .sc 10], .list [.list [.sc 2, .sc 0], .sc 20]], []) ∧
+    decodeA (.map (.sc .f32) (.sc .u8))
+        (encodeA (.map (.sc .f32) (.sc .u8)) (.list [.list [.sc 0xbf800000, .sc 10], .list [.sc 0x40000000, .sc 20]])) =
+      some (.list [.list [.sc 0xbf800000, .sc 10], .list [.sc 0x40000000, .sc 20]], []) := ⟨rfl, rfl, rfl⟩
+
+/-- DECODE OF ANY WIRE ORDER (shuffled, repeated keys): inserting any list of
+well-typed entries with clean keys leaves a map VALUE — entries in strict key
+order, each one of the inserted entries, not more than were sent -/
+theorem map_decode_is_map_value (k t : Ty) (kvs : List Val) (hl : kvs.length ≤ 65535)
+    (hall : ∀ kv ∈ kvs, ∃ x y, kv = .list [x, y] ∧ WF k x ∧ WF t y)
+    (hclean : ∀ kv ∈ kvs, keyClean k kv.fst = true) :
+    WF (.map k t) (.list (mapFromList k kvs)) ∧ (∀ e ∈ mapFromList k kvs, e ∈ kvs) ∧
+      (mapFromList k kvs).length ≤ kvs.length := by
+  have hs := mapFromList_sorted k kvs hclean
+  have hlen := mapFromList_length k kvs
+  refine ⟨?_, hs.2, hlen⟩
+  simp only [WF]
+  exact ⟨_, rfl, by omega, fun kv hkv => hall kv (hs.2 kv hkv), hs.1⟩
+
+/-- every map with two or more entries has NaN-free keys (so the order above is
+the order that was used to build it) -/
+theorem wf_map_keys_clean (k t : Ty) (kvs : List Val) (h : WF (.map k t) (.list kvs)) (h2 : 2 ≤ kvs.length) :
+    ∀ kv ∈ kvs, keyClean k kv.fst = true := by
+  simp only [WF] at h
+  obtain ⟨kvs', e, _, _, hord⟩ := h
+  cases e
+  match kvs, h2, hord with
+  | a :: b :: rest, _, hord =>
+    rw [List.pairwise_cons] at hord
+    intro kv hkv
+    simp only [List.mem_cons] at hkv
+    rcases hkv with rfl | rfl | hkv
+    · exact (hord.1 b (by simp)).2.2.1
+    · exact (hord.1 kv (by simp)).2.2.2
+    · exact (hord.1 kv (by simp [hkv])).2.2.2
+
+/-! ## 12. extension 2: THE 16-BIT BOUND, explicit
+
+`WF ty v` ⇔ `Typed ty v` (v is a value of the type, of any size) ∧ `Counts16 ty v`
+(every string/buffer ≤ 65535 bytes, every vector/map ≤ 65535 elements, at every
+level).  The round trip holds under the bound and FAILS at 65536 — for vectors
+and maps the stream is even left out of step. -/
+
+theorem wf_iff_typed_counts16 (ty : Ty) (v : Val) : WF ty v ↔ Typed ty v ∧ Counts16 ty v :=
+  ⟨typed_of_wf ty v, fun h => wf_of_typed ty v h.1 h.2⟩
+
+/-- ROUND TRIP, archive stack, `_partial`: for every value of every type whose
+sub-containers all have at most 65535 elements (`Counts16`).  The full statement
+(without `h16`) is FALSE for the code: the count on the wire is a `uint16_t`
+(`(uint16_t)vec.size()`), see the two witnesses below. -/
+theorem roundtrip_A_partial (ty : Ty) (v : Val) (rest : List Byte) (ht : Typed ty v) (h16 : Counts16 ty v) :
+    decodeA ty (encodeA ty v ++ rest) = some (v, rest) :=
+  rtA ty v rest (wf_of_typed ty v ht h16)
+
+/-- `_witness` (vector): 65536 elements — a value of the type, outside the bound,
+comes back EMPTY and the 65536 element bytes stay in front of the reader -/
+theorem roundtrip_A_witness (rest : List Byte) :
+    Typed (.vec (.sc .u8)) (.list (List.replicate 65536 (.sc 7))) ∧
+    ¬ Counts16 (.vec (.sc .u8)) (.list (List.replicate 65536 (.sc 7))) ∧
+    decodeA (.vec (.sc .u8)) (encodeA (.vec (.sc .u8)) (.list (List.replicate 65536 (.sc 7))) ++ rest) =
+      some (.list [], (List.replicate 65536 (Val.sc 7)).flatMap (encodeA (.sc .u8)) ++ rest) := by
+  refine ⟨?_, ?_, (count_wrap_witness rest).2⟩
+  · simp only [Typed]
+    exact ⟨_, rfl, fun x hx => by rw [List.eq_of_mem_replicate hx]; exact ⟨7, rfl, by decide⟩⟩
+  · simp only [Counts16, Val.items, List.length_replicate]
+    omega
+
+/-- a map of ANY number of entries: the count is `n mod 65536`, all n entries are
+written, the reader inserts the first `n mod 65536` and leaves the others in the stream -/
+theorem map_any_length (k t : Ty) (kvs : List Val) (rest : List Byte)
+    (hall : ∀ kv ∈ kvs, ∃ x y, kv = .list [x, y] ∧ WF k x ∧ WF t y) (hord : kvs.Pairwise (keyOrdered k)) :
+    decodeA (.map k t) (encodeA (.map k t) (.list kvs) ++ rest) =
+      some (.list (kvs.take (kvs.length % 65536)),
+            (kvs.drop (kvs.length % 65536)).flatMap (fun kv => encodeA k kv.fst ++ encodeA t kv.snd) ++ rest) :=
+  decodeA_map_any k t kvs rest hall hord
+
+/-- `_witness` (map): `std::map<uint16_t, uint8_t>` with all 65536 keys — a value
+of the type, outside the bound, comes back EMPTY, stream out of step -/
+theorem roundtrip_A_map_witness (rest : List Byte) :
+    Typed (.map (.sc .u16) (.sc .u8)) (.list (bigMap 65536)) ∧
+    ¬ Counts16 (.map (.sc .u16) (.sc .u8)) (.list (bigMap 65536)) ∧
+    decodeA (.map (.sc .u16) (.sc .u8)) (encodeA (.map (.sc .u16) (.sc .u8)) (.list (bigMap 65536)) ++ rest) =
+      some (.list [], (bigMap 65536).flatMap (fun kv => encodeA (.sc .u16) kv.fst ++ encodeA (.sc .u8) kv.snd) ++ rest) := by
+  refine ⟨?_, ?_, ?_⟩
+  · simp only [Typed]
+    refine ⟨_, rfl, fun kv hkv => ?_, bigMap_ordered _⟩
+    obtain ⟨x, y, e, hx, hy⟩ := bigMap_entries 65536 (Nat.le_refl _) kv hkv
+    exact ⟨x, y, e, (typed_of_wf _ _ hx).1, (typed_of_wf _ _ hy).1⟩
+  · simp only [Counts16, Val.items, bigMap_length]
+    omega
+  · have := map_any_length (.sc .u16) (.sc .u8) (bigMap 65536) rest (bigMap_entries 65536 (Nat.le_refl _)) (bigMap_ordered _)
+    rw [bigMap_length] at this
+    exact this
+
+/-- ROUND TRIP, serializer stack, `_partial` under the same explicit bound -/
+theorem roundtrip_S_partial (ty : Ty) (v : Val) (rest : List Byte) (hs : ty.supportedS = true)
+    (ht : Typed ty v) (h16 : Counts16 ty v) : decodeS ty (encodeS ty v ++ rest) = some (v, rest) :=
+  rtS ty v rest hs (wf_of_typed ty v ht h16)
+
+/-- serializer stack, a vector of ANY length (`binary_protocol::dump` of a list
+tag writes `(uint16_t)size` and then every element) -/
+theorem vector_any_length_S (t : Ty) (vs : List Val) (rest : List Byte) (hs : t.supportedS = true)
+    (hall : ∀ x ∈ vs, WF t x) :
+    decodeS (.vec t) (encodeS (.vec t) (.list vs) ++ rest) =
+      some (.list (vs.take (vs.length % 65536)), (vs.drop (vs.length % 65536)).flatMap (encodeS t) ++ rest) :=
+  decodeS_vec_any t vs rest hs hall
+
+/-- `_witness`, serializer stack -/
+theorem roundtrip_S_witness (rest : List Byte) :
+    Typed (.vec (.sc .u8)) (.list (List.replicate 65536 (.sc 7))) ∧
+    ¬ Counts16 (.vec (.sc .u8)) (.list (List.replicate 65536 (.sc 7))) ∧
+    decodeS (.vec (.sc .u8)) (encodeS (.vec (.sc .u8)) (.list (List.replicate 65536 (.sc 7))) ++ rest) =
+      some (.list [], (List.replicate 65536 (Val.sc 7)).flatMap (encodeS (.sc .u8)) ++ rest) := by
+  refine ⟨(roundtrip_A_witness rest).1, (roundtrip_A_witness rest).2.1, ?_⟩
+  have := vector_any_length_S (.sc .u8) (List.replicate 65536 (.sc 7)) rest rfl (by
+    intro x hx
+    rw [List.eq_of_mem_replicate hx]
+    exact wfb_sound _ _ (by decide))
+  rw [List.length_replicate] at this
+  exact this
+
+/-! ## 13. extension 2: the bounded readers
+
+`decodeB` = the archive reader after `fix: binary_buffer_reader never reads beyond
+_end` (clamp + zero-fill like the storage reader; `decodeA` above is the reader as it
+was and serves as the STRICT reference reader: `none` = a byte outside the input is
+needed).  `decodeC` = the storage reader with its `size_t` cursor. -/
+
+/-- BOUNDED ARCHIVE READER: for every type of the universe (strings, buffers,
+pairs, tuples, maps included) and EVERY input the repaired `binary_buffer_reader`
+returns, having read no byte at an offset >= the supplied length -/
+theorem bounded_archive_reader_safe (ty : Ty) (input : List Byte) :
+    ∃ v cursor, cursor ≤ input.length ∧ decodeB ty input = some (v, input.drop cursor) :=
+  safe_decodeB ty input
+
+/-- the repair changes NOTHING where the old reader stayed inside its input -/
+theorem bounded_archive_reader_conservative (ty : Ty) (input : List Byte) (v : Val) (r : List Byte)
+    (h : decodeA ty input = some (v, r)) : decodeB ty input = some (v, r) :=
+  mono_decode ty input v r h
+
+/-- hence every round-trip statement holds for the code as it is now -/
+theorem roundtrip_prefix_B (ty : Ty) (v : Val) (rest : List Byte) (h : WF ty v) :
+    decodeB ty (encodeA ty v ++ rest) = some (v, rest) :=
+  mono_decode ty _ _ _ (rtA ty v rest h)
+
+theorem sequence_B (ts : List Ty) (vs : List Val) (rest : List Byte) (h : WFs ts vs) :
+    decodeFieldsB ts (encodeFieldsA ts vs ++ rest) = some (vs, rest) :=
+  mono_decodeFields ts _ _ _ (rtAs ts vs rest h)
+
+/-- the capped loads and the raw array over the repaired reader -/
+theorem capped_load_in_step_B (bs rest : List Byte) (cap : Nat) (h : bs.length ≤ 65535) :
+    loadWritableB (dumpBuffer bs ++ rest) cap = some (bs.take cap, rest) ∧
+    loadCharArrB (dumpCharArr bs ++ rest) cap = some (bs.take (cap % 65536), rest) :=
+  ⟨loadWritableB_of _ _ _ _ (loadWritable_dumpBuffer bs rest cap h),
+   loadCharArrB_of _ _ _ _ (loadCharArr_dumpCharArr bs rest cap h)⟩
+
+theorem data_array_roundtrip_B (k : Sc) (vs : List Val) (rest : List Byte)
+    (hfit : ∀ v ∈ vs, ∃ n, v = .sc n ∧ n < 2 ^ (8 * k.width)) (h : vs.length * k.width ≤ 65535) :
+    decodeDataB k vs.length (encodeData k vs ++ rest) = some (vs, rest) :=
+  decodeDataB_of _ _ _ _ _ (decodeData_encodeData k vs rest hfit h)
+
+/-- TRUNCATED DECODE = DECODE OF THE ZERO-EXTENDED INPUT, archive reader: whatever
+the bounded reader returns on ANY input (`v`, leaving `r`), the strict reader
+returns on that input followed by `pad` zero bytes — `pad` is 0 unless the input
+was used up (`r = []`) — and anything after that (`y`) is left untouched.  So the
+result is a function of the supplied bytes alone: the missing bytes read as zero.
+(Types containing `igris::buffer` excepted: a zero-copy view is cut, see below.) -/
+theorem truncated_decode_zero_extended_B (ty : Ty) (hnv : ty.noView = true) (input : List Byte) (v : Val)
+    (r : List Byte) (h : decodeB ty input = some (v, r)) :
+    ∃ pad, (pad = 0 ∨ r = []) ∧ ∀ y, decodeA ty (input ++ List.replicate pad 0#8 ++ y) = some (v, r ++ y) :=
+  (ze_decode ty hnv input v r h).2
+
+/-- the same for the storage reader of the serializer stack (the harness oracle
+"truncated decode == reference decoder with the missing bytes as zero") -/
+theorem truncated_decode_zero_extended_S (ty : Ty) (hs : ty.supportedS = true) (input : List Byte) (v : Val)
+    (r : List Byte) (h : decodeS ty input = some (v, r)) :
+    ∃ pad, (pad = 0 ∨ r = []) ∧ ∀ y, decodeA ty (input ++ List.replicate pad 0#8 ++ y) = some (v, r ++ y) := by
+  rw [decodeS_eq_decodeB ty hs] at h
+  exact (ze_decode ty (noView_of_supportedS ty hs) input v r h).2
+
+/-- in particular for every truncation point of an encoding: the value decoded
+from the first k bytes is the value of those bytes followed by zeros, and the
+cursor stays inside the k bytes -/
+theorem truncated_encoding_S (ty : Ty) (hs : ty.supportedS = true) (w : Val) (k : Nat) :
+    ∃ v cursor pad, cursor ≤ ((encodeS ty w).take k).length ∧
+      decodeS ty ((encodeS ty w).take k) = some (v, ((encodeS ty w).take k).drop cursor) ∧
+      ∀ y, decodeA ty ((encodeS ty w).take k ++ List.replicate pad 0#8 ++ y) =
+        some (v, ((encodeS ty w).take k).drop cursor ++ y) := by
+  obtain ⟨v, c, hc, e⟩ := safe_decodeS ty ((encodeS ty w).take k)
+  obtain ⟨pad, _, hz⟩ := truncated_decode_zero_extended_S ty hs _ v _ e
+  exact ⟨v, c, pad, hc, e, hz⟩
+
+/-- a truncated `std::string` is zero-filled to its announced length, a truncated
+`igris::buffer` VIEW is cut to the bytes that exist (it cannot be filled) -/
+theorem truncated_string_vs_view_witness :
+    decodeB .str [3, 0, 0x41] = some (.bytes [0x41, 0, 0], []) ∧
+    decodeB .buf [3, 0, 0x41] = some (.bytes [0x41], []) ∧
+    decodeB (.sc .u32) [1, 2] = some (.sc 0x0201, []) := ⟨rfl, rfl, rfl⟩
+
+/-- STORAGE READER WITH ITS CURSOR (`size_t cursor`, `len = MIN(size, size() - cursor)`
+in `size_t` arithmetic, `memcpy` of `[cursor, cursor+len)`): started at 0 on an
+input shorter than 2^64 it never faults, the cursor ends inside the input — the
+invariant `cursor <= size` keeps `size() - cursor` from wrapping — and value and
+position are those of the remaining-bytes model `decodeS` all other theorems use -/
+theorem storage_cursor_model (ty : Ty) (input : List Byte) (hsz : input.length < 2 ^ 64) :
+    ∃ v c, c ≤ input.length ∧ decodeC ty ⟨input, 0⟩ = some (v, ⟨input, c⟩) ∧
+      decodeS ty input = some (v, input.drop c) := by
+  obtain ⟨v, s', rem', e1, e2, hr, hd, _⟩ := sim_decodeC ty ⟨input, 0⟩ input ⟨Nat.zero_le _, hsz, rfl⟩
+  obtain ⟨hc, _, rfl⟩ := hr
+  cases s' with
+  | mk d c =>
+    simp only at hd hc e2
+    subst hd
+    exact ⟨v, c, hc, e1, e2⟩
+
+theorem storage_cursor_model_seq (ts : List Ty) (input : List Byte) (hsz : input.length < 2 ^ 64) :
+    ∃ vs c, c ≤ input.length ∧ decodeFieldsC ts ⟨input, 0⟩ = some (vs, ⟨input, c⟩) ∧
+      decodeFieldsS ts input = some (vs, input.drop c) := by
+  obtain ⟨v, s', rem', e1, e2, hr, hd, _⟩ := sim_decodeFieldsC ts ⟨input, 0⟩ input ⟨Nat.zero_le _, hsz, rfl⟩
+  obtain ⟨hc, _, rfl⟩ := hr
+  cases s' with
+  | mk d c =>
+    simp only at hd hc e2
+    subst hd
+    exact ⟨v, c, hc, e1, e2⟩
+
+/-- one `load` keeps the invariant and is the clamped load of the remaining bytes -/
+theorem storage_load_keeps_invariant (s : Store) (size : Nat) (hc : s.cursor ≤ s.data.length)
+    (hsz : s.data.length < 2 ^ 64) :
+    ∃ bs c, s.load size = some (bs, ⟨s.data, c⟩) ∧ s.cursor ≤ c ∧ c ≤ s.data.length ∧
+      loadS (s.data.drop s.cursor) size = some (bs, s.data.drop c) := by
+  obtain ⟨bs, s', rem', e1, e2, hr, hd, hmono⟩ := store_load_sim s _ size ⟨hc, hsz, rfl⟩
+  obtain ⟨hc', _, rfl⟩ := hr
+  cases s' with
+  | mk d c =>
+    simp only at hd hc' e2 hmono
+    subst hd
+    exact ⟨bs, c, e1, hmono, hc', e2⟩
+
+/-- `_witness` why the invariant matters: with the cursor beyond the size (what
+`cursor += size` instead of `cursor += len` produces) `size() - cursor` wraps to
+2^64-1, the clamp is void and the next `load` copies from outside the buffer -/
+theorem storage_cursor_wrap_witness :
+    Store.avail ⟨[], 1⟩ = 18446744073709551615 ∧ Store.load ⟨[0x55], 2⟩ 1 = none := by decide
+
+/-! ## 14. extension 2: the wire format against a specification that shares nothing with the writer
+
+`layout` (section 7) still used the model's `leBytes` and value accessors.
+`layoutDoc` (Layout.lean) is written from the format description alone: the byte
+image is the closed form "byte i = ⌊n / 256^i⌋ mod 256", values are taken apart by
+pattern matching; no `u16`, `dumpData`, `dumpScalar`, `leBytes`. -/
+
+/-- the bytes written for ANY well-formed value of ANY type are the documented layout -/
+theorem wire_layout_documented_A (ty : Ty) (v : Val) (h : WF ty v) : encodeA ty v = layoutDoc ty v :=
+  encodeA_eq_layoutDoc ty v h
+
+theorem wire_layout_documented_S (ty : Ty) (v : Val) (hs : ty.supportedS = true) (h : WF ty v) :
+    encodeS ty v = layoutDoc ty v := by
+  rw [encS_eq_encA ty v hs]; exact encodeA_eq_layoutDoc ty v h
+
+/-- and the bounded readers invert the documented layout -/
+theorem documented_layout_decodes (ty : Ty) (v : Val) (rest : List Byte) (h : WF ty v) :
+    decodeB ty (layoutDoc ty v ++ rest) = some (v, rest) := by
+  rw [← encodeA_eq_layoutDoc ty v h]; exact mono_decode ty _ _ _ (rtA ty v rest h)
+
+/-- the specification evaluated: map<string, vector<u16>> {"A": [1, 0x203]}, and a float -/
+theorem wire_layout_documented_example :
+    layoutDoc (.map .str (.vec (.sc .u16))) (.list [.list [.bytes [0x41], .list [.sc 1, .sc 0x203]]]) =
+      [1, 0,  1, 0, 0x41,  2, 0,  1, 0,  3, 2] ∧
+    layoutDoc (.sc .f32) (.sc 0x3f800000) = [0, 0, 0x80, 0x3f] := by decide
+
 /-! ## non-vacuity: the hypotheses are satisfiable by non-trivial values -/
 
 -- a map<string, vector<pair<i8,u16>>> with two entries in key order
@@ -412,5 +743,32 @@ example : ∀ v ∈ [Val.sc 1, Val.sc 0xffff], ∃ n, v = .sc n ∧ n < 2 ^ (8 *
   rcases hv with rfl | rfl
   · exact ⟨1, rfl, by decide⟩
   · exact ⟨0xffff, rfl, by decide⟩
+
+-- extension 2: maps in key order for the key types that were excluded before
+example : WF (.map (.vec (.sc .u8)) .str)
+    (.list [.list [.list [], .bytes []], .list [.list [.sc 0], .bytes [1]], .list [.list [.sc 0, .sc 0], .bytes []],
+            .list [.list [.sc 1], .bytes []]]) := wfb_sound _ _ (by decide)
+example : WF (.map (.tuple [.sc .i8, .str]) (.sc .u8))
+    (.list [.list [.list [.sc 0xff, .bytes [0x7a]], .sc 1], .list [.list [.sc 0, .bytes []], .sc 2],
+            .list [.list [.sc 0, .bytes [0]], .sc 3]]) := wfb_sound _ _ (by decide)
+example : WF (.map (.sc .f64) (.sc .u8))
+    (.list [.list [.sc 0xfff0000000000000, .sc 1], .list [.sc 0x8000000000000000, .sc 2], .list [.sc 0x3ff0000000000000, .sc 3]]) :=
+  wfb_sound _ _ (by decide)
+example : WF (.map (.map (.sc .u8) (.sc .u8)) (.sc .u8))
+    (.list [.list [.list [], .sc 1], .list [.list [.list [.sc 1, .sc 2]], .sc 2], .list [.list [.list [.sc 1, .sc 3]], .sc 2]]) :=
+  wfb_sound _ _ (by decide)
+example : WF (.map (.struct [.sc .i16, .str]) (.sc .u8))
+    (.list [.list [.list [.sc 0x8000, .bytes []], .sc 1], .list [.list [.sc 1, .bytes [0x41]], .sc 2]]) := wfb_sound _ _ (by decide)
+-- a single entry may carry a NaN key (nothing is compared)
+example : WF (.map (.sc .f32) (.sc .u8)) (.list [.list [.sc 0x7fc00000, .sc 1]]) := wfb_sound _ _ (by decide)
+example : keyClean (.vec (.sc .f32)) (.list [.sc 0x3f800000, .sc 0x80000000]) = true := by decide
+example : Typed (.vec .str) (.list [.bytes [1, 2]]) ∧ Counts16 (.vec .str) (.list [.bytes [1, 2]]) :=
+  typed_of_wf _ _ (wfb_sound _ _ (by decide))
+
+-- bounded readers
+example : Ty.noView (.map .str (.vec (.tuple [.sc .u8, .str]))) = true := by decide
+example : decodeB (.vec (.sc .u16)) [2, 0, 7] = some (.list [.sc 7, .sc 0], []) := rfl
+example : decodeA (.vec (.sc .u16)) ([2, 0, 7] ++ List.replicate 3 0#8 ++ [9]) = some (.list [.sc 7, .sc 0], [] ++ [9]) := rfl
+example : decodeC (.vec (.sc .u16)) ⟨[2, 0, 7], 0⟩ = some (.list [.sc 7, .sc 0], ⟨[2, 0, 7], 3⟩) := rfl
 
 end Igris.C09
